@@ -19,7 +19,9 @@ def REGEN(ctx):
 RULE = ("seeds {0,1,max,random} x every length 0..40 (quick) / 0..72 (thorough) plus long buffers x random and "
         "patterned contents (zeros, 0xFF, high-bit bytes) x all 8 alignment offsets for zix_digest32/64/zix_digest; "
         "aligned variants on every word-multiple length at every admissible offset; relational cases: same bytes at "
-        "two offsets (A), two seeds (S), one block or the tail replaced (B), zero-extension by 1..9 bytes (Z); "
+        "two offsets (A), two seeds (S), one block or the tail replaced (B), zero-extension by 1..9 bytes (Z); block "
+        "replacements repeated in place through a caller built at -O2 (O); one buffer of 2^32+24 bytes, zero and with "
+        "one byte set, general and aligned variant (G; all three functions in thorough); "
         "distinct case strings counted, non-trivial = non-empty buffer")
 ASSUMPTIONS = [
     "little-endian byte order and 64-bit size_t/uintptr_t (harness/drv_c13.c: _Static_assert and a start-up probe); "
@@ -148,6 +150,12 @@ def gen(ctx, seed, tier):
         for fn in FNS_GENERAL + ([f for f in FNS_ALIGNED if n % word(f) == 0]):
             b = rand_bytes(r, n)
             cases += rel_cases(r, fn, rand_seed(r, fn), b, 0 if fn in FNS_ALIGNED else r.randrange(8), full=True)
+    # block replacements again through the optimised caller (in place, same call repeated), and 4 GiB buffers
+    bs = [c for c in cases if c.split()[4] == "B"]
+    r.shuffle(bs)
+    cases += ["O " + c for c in bs[:(3000 if thorough else 400)]]
+    if seed == ctx.seed:
+        cases += ["G d64"] + (["G d32", "G dn"] if thorough else [])
     return cases
 
 
@@ -174,9 +182,36 @@ def corpus(ctx):
 
 def build(ctx):
     ctx.build_driver("drv_c13", ["digest.c"])
+    # second driver: -O2, no sanitizers (what the declarations in digest.h let an optimising caller assume; 4 GiB buffers)
+    ctx.cc([os.path.join(vlib.HARNESS, "drv_c13_o2.c")] + ctx.repo_src("digest.c"), ctx.path("drv_c13_o2"),
+           flags=["-O2"], sanitize=False)
+
+
+def plain(case):
+    """O <case>: the same relational case through the -O2 driver (in-place replacement, same call repeated)"""
+    return case[2:] if case.startswith("O ") else case
 
 
 def run_impl(ctx, cases):
+    special = [i for i, c in enumerate(cases) if c.startswith(("O ", "G "))]
+    if not special:
+        return _run_impl_plain(ctx, cases)
+    ss = set(special)
+    from concurrent.futures import ThreadPoolExecutor
+    with ThreadPoolExecutor(2) as ex:
+        fa = ex.submit(_run_impl_plain, ctx, [c for i, c in enumerate(cases) if i not in ss])
+        fb = ex.submit(ctx.run_lines, [ctx.path("drv_c13_o2")], [cases[i] for i in special], 900)
+        a = iter(fa.result())
+        rc, o, err = fb.result()
+    o = o + ["CRASH rc=%d" % rc] * (len(special) - len(o))
+    if any(l == "huge unavailable" for l in o):
+        ctx.c13_huge_unavailable = True
+        ctx.notes.append("the 4 GiB buffer of the G cases could not be mapped here: those cases were not evaluated")
+    b = iter(o)
+    return [next(b) if i in ss else next(a) for i in range(len(cases))]
+
+
+def _run_impl_plain(ctx, cases):
     """run the C driver; after a sanitizer abort, mark that case and continue with the rest"""
     out = []
     pos = 0
@@ -207,13 +242,27 @@ def run_impl(ctx, cases):
 
 
 def run_model(ctx, cases):
-    return ctx.run_model("drv_c13", cases)
+    g = [i for i, c in enumerate(cases) if c.startswith("G ")]
+    ms, ss = ctx.run_model("drv_c13", [plain(c) for i, c in enumerate(cases) if not c.startswith("G ")])
+    ms, ss = iter(ms), iter(ss)
+    # G cases: no model evaluation on a 4 GiB list; the line is what the theorems of Properties_C13 say for EVERY
+    # length (a changed block changes the digest; the aligned variant equals the general one on the same bytes)
+    gl = "huge unavailable" if getattr(ctx, "c13_huge_unavailable", False) else "huge diff=1 eq=1"
+    M, S = [], []
+    for i, c in enumerate(cases):
+        if c.startswith("G "):
+            M.append(gl)
+            S.append(gl)
+        else:
+            M.append(next(ms))
+            S.append(next(ss))
+    return M, S
 
 
 def classify(case, impl, model, spec):
     """known finding C13-J4: 64-bit general function, zero-extension by exactly 4 bytes from a length that
     is a multiple of 8 (fasthash64 itself can collide there: length_sensitive64_boundary_refuted)"""
-    t = case.split()
+    t = plain(case).split()
     if len(t) != 6 or t[4] != "Z" or t[5] != "4" or t[0] not in ("d64", "dn"):
         return None
     n = 0 if t[2] == "-" else len(t[2]) // 2
@@ -221,14 +270,17 @@ def classify(case, impl, model, spec):
 
 
 def nontrivial(c):
-    t = c.split()
-    return len(t) == 6 and t[2] != "-"
+    t = plain(c).split()
+    return (len(t) == 6 and t[2] != "-") or c.startswith("G ")
 
 
 def tokens(c):
-    t = c.split()
+    if c.startswith("G "):
+        return [("G", c)]
+    pre = "O " if c.startswith("O ") else ""
+    t = plain(c).split()
     b = [] if t[2] == "-" else [t[2][i:i + 2] for i in range(0, len(t[2]), 2)]
-    return [("H", t[0], t[1], t[3], t[4], t[5])] + b
+    return [("H", pre + t[0], t[1], t[3], t[4], t[5])] + b
 
 
 def untokens(toks):
@@ -236,6 +288,8 @@ def untokens(toks):
     b = [x for x in toks if not isinstance(x, tuple)]
     if not head:
         return "bad"
+    if head[0][0] == "G":
+        return head[0][1]
     _, fn, seed, off, kind, arg = head[0]
     return "%s %s %s %s %s %s" % (fn, seed, "".join(b) or "-", off, kind, arg)
 
@@ -243,8 +297,10 @@ def untokens(toks):
 def stats(cases, impl):
     d = {"by_fn": {}, "by_kind": {}, "by_len_mod8": {}, "by_offset": {}, "max_len": 0,
          "rel_same": 0, "rel_diff": 0}
+    d["optimised_caller_cases"] = sum(1 for c in cases if c.startswith("O "))
+    d["huge_buffer_cases"] = sum(1 for c in cases if c.startswith("G "))
     for c, o in zip(cases, impl):
-        t = c.split()
+        t = plain(c).split()
         if len(t) != 6:
             continue
         n = 0 if t[2] == "-" else len(t[2]) // 2
